@@ -70,6 +70,16 @@ CHECKS['C07'] = dict(
          'threads are runnable; each trace is validated by TLC and the server must exit with no thread left.',
     design_ref='DESIGN.md section 6 C07', note=SRV)
 
+CHECKS['C10'] = dict(
+    technique='TLA+ spec Tee with one action per source line of Fork.__next__, checked by TLC (prefix/ending agreement, window '
+              'bound, deadlock-freedom, termination under fairness; as-found variants must wedge / spin / disagree); TLC trace '
+              'validation of the real tee() under a deterministic scheduler preempting before every line of _tee.py',
+    text='TLC explores every interleaving of 2 and 3 forks at line granularity for source lengths 0..6, every failure position and '
+         'buffer sizes 2..4: ForkPrefix, EndAgree, Window (<= buffer_size + 2), LockSane, no deadlock, and AllEnd under weak '
+         'fairness of every fork.  The real forks run in detsched line mode (scheduling point before each line of _tee.py); a '
+         'wedge or a spin on a leaked lock is detected as deadlock / livelock, and each completed execution is validated by TLC.',
+    design_ref='DESIGN.md section 6 C10', note=TB + '; line-mode preemption (sys.settrace) on _tee.py')
+
 ALL = ['C%02d' % i for i in range(1, 21)]
 
 
